@@ -3,6 +3,7 @@ package gen
 import (
 	"fmt"
 	"strconv"
+	"strings"
 
 	"verifsim/choice"
 )
@@ -327,12 +328,41 @@ func (g *genState) depArg(nsvc int, allowSvc bool) Arg {
 func (g *genState) service(name string, i int) Svc {
 	src := g.src
 	s := Svc{Name: name}
-	if !g.o.NoTodo && src.Chance("stodo", 1, 8) {
+	if strings.HasSuffix(name, "\x00") {
+		saved := g.o.NoTodo
+		g.o.NoTodo = true
+		defer func() { g.o.NoTodo = saved }()
+	}
+	todoDen := 6
+	if g.o.Plain {
+		todoDen = 3 // the todo/override workload (C15)
+	}
+	if !g.o.NoTodo && src.Chance("stodo", 1, todoDen) {
 		s.Todo = true
 		if g.o.TodoScoped && !g.o.NoScopes {
 			s.Scope = choice.Pick(src, "stodoscope", []string{"", "shared", "contextual", "contextual", "non_shared"})
 		}
-		return s
+		if !src.Chance("stodofull", 1, 2) {
+			return s
+		}
+		// a complete definition that is (still) marked todo - e.g. defined in one file and switched
+		// off by `todo: true` in a later one: it stays a placeholder
+		full := g.service(name+"\x00", i)
+		full.Name, full.Todo = name, true
+		if s.Scope != "" {
+			full.Scope = s.Scope
+		}
+		if len(full.Args) > 0 && full.Args[0].Kind == "str" {
+			full.Args[0].S = name
+		}
+		for k := range full.Fields {
+			if full.Fields[k].Name == "Name" {
+				full.Fields[k].V.S = name
+			}
+		}
+		full.Getter = ""
+		full.MustGetter = nil
+		return full
 	}
 	kinds := []string{"ctor", "ctor", "ctor", "ctorE", "value"}
 	if !g.o.OnlyPtr {
